@@ -285,8 +285,13 @@ class Evaluator:
             hint = getattr(n, '_elem_ty', None) or INT
             return self.list_literal([], hint)
         ty = vals[0].ty
-        for x in vals[1:]:
-            ty = join_types(ty, x.ty)
+        try:
+            for x in vals[1:]:
+                ty = join_types(ty, x.ty)
+        except OutOfSubset:
+            return mk_tuple(vals)     # a small heterogeneous list used as a record ([start, None, False, None]): fixed shape
+        if getattr(n, '_as_tuple', False):
+            return mk_tuple(vals)
         return self.list_literal([coerce(x, ty) for x in vals], ty)
 
     def list_literal(self, vals, elem_ty):
@@ -446,6 +451,18 @@ class Evaluator:
         saved = list(ctx.guards)
         try:
             for op, rn in zip(n.ops, n.comparators):
+                if isinstance(op, (ast.In, ast.NotIn)) and isinstance(rn, ast.Name) and rn.id not in ctx.env and \
+                        isinstance(self.engine.globals_.get(rn.id), (list, tuple, set, frozenset)) and \
+                        all(isinstance(x, str) for x in self.engine.globals_[rn.id]):
+                    # membership in a module-level constant collection of strings (read from the real module): a disjunction
+                    items = sorted(self.engine.globals_[rn.id])
+                    c = z3.Or(*[values_equal(left, mk_str(x)) for x in items]) if items else z3.BoolVal(False)
+                    if isinstance(op, ast.NotIn):
+                        c = z3.Not(c)
+                    parts.append(c)
+                    ctx.guards.append(c)
+                    left = None
+                    continue
                 if isinstance(op, (ast.In, ast.NotIn)) and isinstance(rn, (ast.List, ast.Tuple, ast.Set)):
                     # membership in a literal collection: a disjunction of equalities
                     items = [self.ev(e, ctx) for e in rn.elts]
@@ -516,6 +533,10 @@ class Evaluator:
         return res
 
     def member(self, a, b, ctx):
+        if isinstance(b.ty, TRec) and b.ty.name in getattr(self.engine, 'unions', {}) and a.ty == STR:
+            # `text in x` where x is a str | int | float union: TypeError unless x is a str
+            ctx.exc('TypeError', b.ty.get('kind', b.t) != 0)
+            return z3.Contains(b.ty.get('s', b.t), a.t)
         if b.ty == STR and a.ty == STR:
             return z3.Contains(b.t, a.t)
         if isinstance(b.ty, TList):
